@@ -628,7 +628,7 @@ static void do_hkdf(World &w, TaskState &t, const Op &op, int index) {
 
 // ---------------------------------------------------------------- clean primitive (C20)
 static void do_clean(World &w, TaskState &t, const Op &op, int index) {
-    const size_t SZ = 512;
+    const size_t SZ = 8192 + 64;
     ensure(w, t, t.clean_slot, SZ, 0x400);
     size_t off = (size_t)(op.a % 64), size = (size_t)op.b;
     if (off + size > SZ) size = SZ - off;
@@ -941,7 +941,10 @@ static void do_trng(World &w, TaskState &t, const Op &op, int index) {
             else if (!all_zero(out.p, 32)) report(w, C18, "seed-not-zeroed", "permanent OS error (errno " + std::to_string(term) + "): seed buffer not zeroed on failure");
             else check_pass(w, C18);
         } else {
-            report(w, C18, "no-os-call", "system source returned " + std::to_string(rc) + " without reaching the OS entropy call");
+            if (c.os_calls > 0)
+                report(w, C18, "gave-up-on-transient", "system source returned " + std::to_string(rc) + " after " + std::to_string(c.os_calls) + " transient OS errors (EINTR/EAGAIN) instead of retrying until the OS answers");
+            else
+                report(w, C18, "no-os-call", "system source returned " + std::to_string(rc) + " without making the OS entropy call");
         }
         if (c.fds_open != 0) report(w, C18, "fd-leak", std::to_string(c.opens) + " open(), " + std::to_string(c.closes) + " close() during one call");
     }
